@@ -245,6 +245,9 @@ pub enum Schedule {
     Biased { num: u64, den: u64, seed: u64 },
     /// (global step, thread to run from there on)
     Explicit { switches: Vec<(u64, usize)> },
+    /// supplement: the threads run truly concurrently behind a start barrier; the simulator does not
+    /// decide the interleaving, so a failure found this way replays only statistically
+    Free,
 }
 
 #[derive(Clone, Debug, PartialEq, Eq, Hash, Serialize, Deserialize)]
